@@ -163,6 +163,9 @@ func (p *parser) parseSchemaDefinition(description descriptionWithComment) *Sche
 	def.EndOfDefinitionComment = p.some(lexer.BraceL, lexer.BraceR, func() {
 		def.OperationTypes = append(def.OperationTypes, p.parseOperationTypeDefinition())
 	})
+	if len(def.OperationTypes) == 0 {
+		p.unexpectedError()
+	}
 	return &def
 }
 
